@@ -361,6 +361,50 @@ def h_history(ctx, B, op):
     return "w%d" % n
 
 
+def h_two(ctx, B, op):
+    """Two live frames of independent widths: the same kind of write on the first, then on the second.
+    Frames are independent values - nothing learnt from one frame (a mask, a packed view, a width) may
+    be applied to the other."""
+    ba, da = _state(ctx, B, "a")
+    bb, db = _state(ctx, B, "b")
+    fa, fb = _mk(ba, da), _mk(bb, db)
+    wants = []
+    for tag, f, b, d in (("a", fa, ba, da), ("b", fb, bb, db)):
+        if op == "setslice":
+            x = ctx.fresh("x" + tag, 0, B - 1)
+            y = ctx.fresh("y" + tag, 0, B - 1)
+            ctx.assume(E.and_(E.lt(x, b), E.le(y, x)))
+            w = x + 1 - y
+            v = ctx.fresh("v" + tag, 0, (1 << B) - 1)
+            ctx.assume(E.lt(v, 1 << w))
+            f[x:y] = v
+            want = (d & ~(mask(w) << y)) | (v << y)
+            ctx.prove(E.eq(f[x:y], v), "slice read-back differs on frame " + tag, key="two/readback-" + tag)
+        else:
+            i = ctx.fresh("i" + tag, 0, B - 1)
+            ctx.assume(E.lt(i, b))
+            v = ctx.fresh_bool("v" + tag)
+            f[i] = v
+            want = E.ite(v, d | (1 << i), d & ~(1 << i))
+            ctx.prove(E.iff(f[i], v), "bit read-back differs on frame " + tag, key="two/readback-" + tag)
+        wants.append(want)
+        ctx.prove(E.and_(E.eq(f.__len__(), b), E.eq(f.as_integer, want)),
+                  "write on frame %s (while another frame is alive) stored the wrong value" % tag,
+                  key="two/%s/value-%s" % (op, tag))
+    # the first frame is untouched by the work on the second, and both still show consistent views
+    ctx.prove(E.and_(E.eq(fa.__len__(), ba), E.eq(fa.as_integer, wants[0])),
+              "a write on one frame changed another frame", key="two/%s/aliasing" % op)
+    na, nb = len(fa), len(fb)
+    _views_match(ctx, fa, na, wants[0], "two/views-a")
+    _views_match(ctx, fb, nb, wants[1], "two/views-b")
+    g = fa + fb
+    ctx.prove(E.and_(E.eq(g.__len__(), ba + bb), E.eq(g.as_integer, (wants[0] << bb) | wants[1])),
+              "concatenation of the two frames is wrong", key="two/concat")
+    ctx.prove(E.and_(E.eq(fa.as_integer, wants[0]), E.eq(fb.as_integer, wants[1])),
+              "concatenation changed an operand", key="two/concat-operand")
+    return "w%d+%d" % (na, nb)
+
+
 # --- comparison / contains ------------------------------------------------------------
 
 def h_eq(ctx, B):
@@ -471,6 +515,9 @@ def cases(tier):
     Bh = 12 if tier == "quick" else 40
     for op in ("setbit", "setslice", "rejected"):
         cs.append(Case("history-" + op, h_history, {"B": Bh, "op": op}, width=128))
+    Bt = 6 if tier == "quick" else 16
+    for op in ("setslice", "setbit"):
+        cs.append(Case("two-" + op, h_two, {"B": Bt, "op": op}, width=128))
     for n in ([1, 3] if tier == "quick" else [1, 2, 3, 4, 8, 9]):
         cs.append(Case("ctor_bytes%d" % n, h_ctor_bytes, {"B": B, "n": n}, width=128))
     return cs
